@@ -452,3 +452,13 @@ func cloneByteSlices(l [][]byte) [][]byte {
 
 	return c
 }
+
+// mapLastEvaluatedKey maps the key of the last evaluated item; a complete result has no LastEvaluatedKey at all
+// (nil, as DynamoDB answers), which is what `LastEvaluatedKey == nil` loops test for.
+func mapLastEvaluatedKey(lastKey map[string]*types.Item) map[string]*dynamodb.AttributeValue {
+	if len(lastKey) == 0 {
+		return nil
+	}
+
+	return mapAttributeValueToDynamodb(lastKey)
+}
